@@ -22,6 +22,8 @@ CONSTANTS Ids,          \* slots of the pool, e.g. 1..3
           FillPos,      \* positions for fill
           FillW,        \* weights for fill (1 = unweighted call)
           SetDtypes,    \* targets of set_dtype
+          SliceArgs,    \* set of <<start, stop>> (NoneIx = None)
+          MergeArgs,    \* amounts for merge_bins
           MaxDepth,
           MaxVal        \* bound on numerators/denominators (keeps TLC in 32-bit integers)
 
@@ -57,6 +59,7 @@ Init == pool = [i \in Ids |-> Null] /\ ghost = [i \in Ids |-> Untracked] /\ call
 New(k, s) ==
     /\ Live /\ On("New") /\ Free(k)
     /\ \A j \in Ids : j < k => Has(j)            \* fill slots in order (symmetry)
+    /\ ~(s.dtype \in Ints /\ s.den > 1)
     /\ pool' = [pool EXCEPT ![k] = [FromData(s.L, s.keep, s.batch, s.dtype) EXCEPT !.name = s.name, !.den = s.den]]
     /\ ghost' = [ghost EXCEPT ![k] = GOfSeq(s.batch)]
 
@@ -121,7 +124,7 @@ Sub(i, j, k) ==
 ISub(i, j) ==
     /\ Live /\ On("ISub") /\ Has(i) /\ Has(j) /\ i # j
     /\ SameBins(pool[i], pool[j]) /\ CanMinus(pool[i], pool[j])
-    /\ pool' = [pool EXCEPT ![i] = Minus(pool[i], pool[j])]
+    /\ pool' = [pool EXCEPT ![i] = [Minus(pool[i], pool[j]) EXCEPT !.name = pool[i].name]]   \* in place: metadata kept
     /\ ghost' = [ghost EXCEPT ![i] = Untracked]
 
 (* i -= j where some content would become negative: refused, nothing changes *)
@@ -186,6 +189,17 @@ Fill(i, p, w) ==
     /\ pool' = [pool EXCEPT ![i] = [DepositR(pool[i], p, w) EXCEPT !.dtype = Promote(@, "i8")]]
     /\ ghost' = [ghost EXCEPT ![i] = IF @ = Untracked THEN Untracked ELSE GAdd(@, p, w)]
 
+(* i.fill(value, 0.5): a float weight promotes the contents to float *)
+FillHalf(i, p) ==
+    /\ Live /\ On("FillHalf") /\ Has(i) /\ pool[i].den \in {1, 2}
+    /\ pool' = [pool EXCEPT ![i] = Reduce([DepositR(Rescale(pool[i], 2), p, 1) EXCEPT !.dtype = Promote(@, "f8")])]
+    /\ ghost' = [ghost EXCEPT ![i] = Untracked]
+
+(* physt.h1(values, bins, weights=<floats>, dtype=<integer type>) must be refused *)
+NewRefused(s) ==
+    /\ Live /\ On("NewRefused") /\ s.dtype \in Ints /\ s.den > 1
+    /\ UNCHANGED <<pool, ghost>>
+
 (* i.dtype = d : accepted iff lossless *)
 CanSetDtype(h, d) ==
     IF d \in Ints
@@ -194,13 +208,16 @@ CanSetDtype(h, d) ==
 
 SetDtype(i, d) ==
     /\ Live /\ On("SetDtype") /\ Has(i) /\ CanSetDtype(pool[i], d)
-    /\ (d \in Floats \/ pool[i].den = 1 \/ IsIntegral(pool[i]))
-    /\ pool' = [pool EXCEPT ![i].dtype = d]
+    /\ (d \in Ints => pool[i].prec = 0)       \* integrality of rounded float values is not decided by the model
+    /\ pool' = [pool EXCEPT ![i].dtype = d,
+                            ![i].prec = IF IsPow2(pool[i].den) THEN @ ELSE IF d = "f4" THEN Max2(@, 2) ELSE IF d = "f2" THEN 3 ELSE @]
     /\ UNCHANGED ghost
 
 SetDtypeRefused(i, d) ==
     /\ Live /\ On("SetDtypeRefused") /\ Has(i)
-    /\ d \in Ints /\ (~IsIntegral(pool[i]) \/ MaxAbs(pool[i]) > IntMax(d))
+    /\ \/ d \in Ints /\ pool[i].prec = 0 /\ (~IsIntegral(pool[i]) \/ MaxAbs(pool[i]) > IntMax(d))
+       \/ d \in Floats /\ MaxAbs(pool[i]) > FloatMaxInt(d)
+    /\ d # pool[i].dtype
     /\ UNCHANGED <<pool, ghost>>
 
 (* i.name = v *)
@@ -244,10 +261,12 @@ Next ==
     \/ \E i \in Ids : DivZeroRefused(i)
     \/ \E i, k \in Ids, pc, ip \in BOOLEAN : Normalize(i, pc, ip, k)
     \/ \E i \in Ids, p \in FillPos, w \in FillW : Fill(i, p, w)
+    \/ \E i \in Ids, p \in FillPos : FillHalf(i, p)
+    \/ \E s \in Seeds : NewRefused(s)
     \/ \E i \in Ids, d \in SetDtypes : SetDtype(i, d) \/ SetDtypeRefused(i, d)
     \/ \E i \in Ids, v \in {1, 2} : SetName(i, v)
-    \/ \E i, k \in Ids, a \in 1..4, ip \in BOOLEAN : Merge(i, a, ip, k)
-    \/ \E i, k \in Ids, a, b \in {NoneIx, -2, -1, 0, 1, 2, 3} : Slice(i, a, b, k)
+    \/ \E i, k \in Ids, a \in MergeArgs, ip \in BOOLEAN : Merge(i, a, ip, k)
+    \/ \E i, k \in Ids, ab \in SliceArgs : Slice(i, ab[1], ab[2], k)
     \/ \E k \in Ids : Drop(k)
 
 Spec == Init /\ [][Next]_vars
